@@ -3,6 +3,7 @@ package main
 import (
 	"fmt"
 	"go/ast"
+	"go/constant"
 	"go/token"
 	"go/types"
 	"os"
@@ -251,7 +252,23 @@ func checkC02(c *Ctx) (string, []string) {
 		case want == "" && len(used) == 0:
 			c.OK("C02.decode-agreement", key, ls.Pos(), "no operands / inline operands in both engines (category %s)", t.info[k].category)
 		case len(used) == 0:
-			c.OK("C02.decode-agreement", key, ls.Pos(), "single-step handler decodes inline (category %s); its signature is compared under C02.sibling-handlers", t.info[k].category)
+			// the single-step handler decodes inline: both engines must take the same octets of the code for every skip
+			// distance (slice extents relative to pc, evaluated for skip = 0..24)
+			if dOps := c.Fn("PVM", "decodeOperands"); dOps != nil {
+				diff := ""
+				for s := int64(0); s <= 24 && diff == ""; s++ {
+					a := c02CodeOctets(ls, nil, s)
+					b := c02CodeOctets(dOps, func(in ssa.Instruction) bool { return c02UnderCategory(c, dOps, in, t.info[k].category) }, s)
+					if a != b && a != "?" && b != "?" {
+						diff = fmt.Sprintf("skip %d: the single-step handler takes code octets %s (relative to pc), the block engine %s", s, a, b)
+					}
+				}
+				if diff != "" {
+					c.Bad("C02.decode-agreement", key, ls.Pos(), "the two engines read different operand octets (category %s): %s", t.info[k].category, diff)
+					continue
+				}
+			}
+			c.OK("C02.decode-agreement", key, ls.Pos(), "single-step handler decodes inline (category %s): same code octets as the block engine for skip 0..24; its signature is compared under C02.sibling-handlers", t.info[k].category)
 		default:
 			ok := true
 			for _, u := range used {
@@ -309,4 +326,122 @@ func (e *omegaEnv) ruleReadsBeforeWrites(rule string, t *opTables) int {
 		check(fo)
 	}
 	return n
+}
+
+// c02UnderCategory: the instruction of decodeOperands lies in the arm of the given operand category
+// (dominated by the true edge of the comparison of the category with that constant).
+func c02UnderCategory(c *Ctx, f *ssa.Function, in ssa.Instruction, category string) bool {
+	k, ok := c.Obj("PVM", category).(*types.Const)
+	if !ok {
+		return false
+	}
+	kv, _ := constant.Int64Val(k.Val())
+	pass := condEdges(f, func(v ssa.Value) (bool, bool) {
+		bo, isB := v.(*ssa.BinOp)
+		if !isB || bo.Op != token.EQL {
+			return false, false
+		}
+		if x, isC := constInt(bo.Y); isC && x == kv && strings.Contains(exprStr(bo.X, shapeOpts), "Category") {
+			return true, true
+		}
+		if x, isC := constInt(bo.X); isC && x == kv && strings.Contains(exprStr(bo.Y, shapeOpts), "Category") {
+			return true, true
+		}
+		return false, false
+	})
+	return len(pass) > 0 && guardedBy(f, in, pass)
+}
+
+// c02CodeOctets: the code octets (offsets relative to pc) that slices of the instruction data in f — and in the
+// operand decoders it calls — take, for one skip distance; "?" when an extent cannot be evaluated.
+func c02CodeOctets(f *ssa.Function, keep func(ssa.Instruction) bool, skip int64) string {
+	const PC = int64(1000)
+	octets := map[int64]bool{}
+	unknown := false
+	var visit func(g *ssa.Function, keep func(ssa.Instruction) bool, env intEnv, d int)
+	visit = func(g *ssa.Function, keep func(ssa.Instruction) bool, env intEnv, d int) {
+		isCode := func(v ssa.Value) bool {
+			s := exprStr(v, shapeOpts)
+			return strings.HasSuffix(s, ".InstructionData") || (isByteSlice(v.Type()) || strings.HasSuffix(v.Type().String(), "ProgramCode")) && (s == "p0" || s == "p1")
+		}
+		allInstrs(g, func(in ssa.Instruction) {
+			if keep != nil && !keep(in) {
+				return
+			}
+			switch x := in.(type) {
+			case *ssa.Slice:
+				if !isCode(x.X) || x.Low == nil || x.High == nil {
+					return
+				}
+				lo, ok1 := evalInt(x.Low, env, 0)
+				hi, ok2 := evalInt(x.High, env, 0)
+				if !ok1 || !ok2 {
+					unknown = true
+					return
+				}
+				for o := lo; o < hi && o < lo+64; o++ {
+					octets[o-PC] = true
+				}
+			case *ssa.Call:
+				h := x.Call.StaticCallee()
+				if h == nil || len(h.Blocks) == 0 || !strings.HasPrefix(h.Name(), "decode") || d > 2 {
+					return
+				}
+				sub := intEnv{params: map[ssa.Value]int64{}, lens: map[ssa.Value]int64{}, unknown: map[ssa.Value]bool{}, cells: map[ssa.Value]int64{}}
+				n := 0
+				for i, p := range h.Params {
+					if strings.HasSuffix(p.Type().String(), "ProgramCounter") && i < len(x.Call.Args) {
+						if v, ok := evalInt(x.Call.Args[i], env, 0); ok {
+							sub.params[p] = v
+							n++
+						}
+					}
+					if isByteSlice(p.Type()) || strings.HasSuffix(p.Type().String(), "ProgramCode") {
+						sub.lens[p] = 5000
+					}
+				}
+				if n < 2 {
+					unknown = true
+					return
+				}
+				visit(h, nil, sub, d+1)
+			}
+		})
+	}
+	env := intEnv{params: map[ssa.Value]int64{}, lens: map[ssa.Value]int64{}, unknown: map[ssa.Value]bool{}, cells: map[ssa.Value]int64{}}
+	npc := 0
+	for _, p := range f.Params {
+		if strings.HasSuffix(p.Type().String(), "ProgramCounter") {
+			if npc == 0 {
+				env.params[p] = PC
+			} else {
+				env.params[p] = skip
+			}
+			npc++
+		}
+		if isByteSlice(p.Type()) || strings.HasSuffix(p.Type().String(), "ProgramCode") {
+			env.lens[p] = 5000
+		}
+	}
+	env.opaque = func(v ssa.Value) (int64, bool) {
+		switch s := exprStr(v, shapeOpts); {
+		case strings.HasSuffix(s, ".PC"):
+			return PC, true
+		case strings.HasSuffix(s, ".SkipLen"):
+			return skip, true
+		case strings.HasPrefix(s, "len(") && (strings.Contains(s, "InstructionData") || strings.HasSuffix(s, "p1)")):
+			return 5000, true
+		}
+		return 0, false
+	}
+	visit(f, keep, env, 0)
+	if unknown {
+		return "?"
+	}
+	var ks []int64
+	for o := range octets {
+		ks = append(ks, o)
+	}
+	sort.Slice(ks, func(i, j int) bool { return ks[i] < ks[j] })
+	return fmt.Sprint(ks)
 }
